@@ -3,7 +3,8 @@ import logging
 import sys
 import warnings
 
-REPO = '/repo'
+import os
+REPO = os.environ.get('MRM_REPO', '/repo')
 if REPO not in sys.path:
     sys.path.insert(0, REPO)
 sys.dont_write_bytecode = True
